@@ -12,7 +12,9 @@ use crate::with_engine;
 
 type V = (String, String);
 
-pub const CFGS: [(usize, usize, usize); 8] = [(3, 2, 64), (2, 3, 64), (5, 3, 66), (3, 5, 130), (1, 1, 2), (4, 4, 64), (9, 2, 2), (2, 9, 2)];
+// (3,2,100) and (3,2,120): same counts, same number of 64-byte blocks, different length of the short final block
+// (3,3,64): high rate with a padded first chunk although original_count >= recovery_count
+pub const CFGS: [(usize, usize, usize); 10] = [(3, 2, 64), (2, 3, 64), (5, 3, 66), (3, 5, 130), (1, 1, 2), (3, 3, 64), (9, 2, 2), (2, 9, 2), (3, 2, 100), (3, 2, 120)];
 
 #[derive(Clone, Debug)]
 struct Step {
